@@ -162,6 +162,20 @@ def generate(tier, seed):
         lons = [l for l in lons if -h <= l <= 2 * h and l % (2 * h) != 0] or [7]
         lats = [rnd.randint(-90, 90) * s for _ in lons]
         cases.append(_case(vd, s, (w, e, sn[0], sn[1]), (lons, lats) if i % 4 else None, "globe-decimal", tol=True))
+    # 2c. very narrow (non-zero) regions on a fine dyadic lattice (1/4096 degree), away from Greenwich: the width must be
+    #     kept (a tolerance on the wrapped bounds must not turn them into a full globe)
+    s = 4096
+    h = 180 * s
+    for i in range(24 if tier == "quick" else 240):
+        w = rnd.randint(-h + 50, 2 * h - 50)
+        e = w + rnd.choice([1, 2, 3, 5, 8, 20])
+        if e > 2 * h:
+            continue
+        sn = sorted([rnd.randint(-90, 90) * s, rnd.randint(-90, 90) * s])
+        lons = [w, e, w + 1, rnd.randint(-h, 2 * h), (w + h) if w + h <= 2 * h else (w - h)]
+        lons = [l for l in lons if -h <= l <= 2 * h]
+        lats = [rnd.randint(-90, 90) * s for _ in lons]
+        cases.append(_case(vd, s, (w, e, sn[0], sn[1]), (lons, lats) if i % 3 else None, "narrow-dyadic"))
     # 3. invalid inputs (one fault each)
     s = 8
     h = 180 * s
